@@ -119,6 +119,7 @@ class Ctx:
         self.notes = []
         self.guards = []          # (name, ok, detail)
         self.rule = ''
+        self.exhaustive = True    # set to False by a check whose exploration hit a cap (reported, never silent)
 
     def pick(self, quick, thorough):
         return quick if self.quick else thorough
@@ -369,7 +370,7 @@ def finish(ctx):
         distinct_nontrivial=nontrivial,
         rule=ctx.rule,
         samples=rec.samples[:8] or ['(no sample)'],
-        exhaustive=True,
+        exhaustive=bool(ctx.exhaustive),
         bounds=ctx.bounds,
         distinct_outcomes=len(rec.outcomes),
         outcomes=dict(sorted(((str(k), v) for k, v in rec.outcomes.items()), key=lambda kv: -kv[1])[:40]),
